@@ -90,6 +90,27 @@ class LoopMixin:
                         out.append((s2, IterDesc(n, (lambda a, b: lambda i: ops.make_tuple([a.elem(i), b.elem(i)]))(a, b))))
                 return out
             raise Unsupported("iteration over %s(...)" % fn)
+        if isinstance(node, ast.Call) and isinstance(node.func, ast.Attribute) and node.func.attr == "items" and not node.args:
+            # dict.items(): an (unordered here) sequence of (key, value) pairs, each of which is an entry of the dict;
+            # "every entry occurs" and the insertion order are not encoded -- enough for frame and per-entry facts
+            out = []
+            for s, v in self.ev(node.func.value, st, sink):
+                if isinstance(v.t, ty.Opt):
+                    v = ty.opt_val(v)
+                if not isinstance(v.t, ty.Map):
+                    raise Unsupported(".items() on %s" % v.t)
+                if v.e is None:
+                    out.append((s, IterDesc(z3.IntVal(0), lambda i: None, 0)))
+                    continue
+                tt = ty.Tuple([v.t.key, v.t.val])
+                items = ty.fresh(ty.Seq(tt), "items")
+                q = z3.Int("q!items%d" % self._fresh())
+                el = SV(tt, items.e[q])
+                k_, val_ = ops.tuple_parts(el)
+                s.assume(z3.ForAll([q], z3.Implies(z3.And(0 <= q, q < z3.Length(items.e)), z3.Select(v.e, k_.e) == ty.opt_some(val_).e)))
+                self.assumptions.add("dict.items(): modelled as some sequence of entries of the dict (completeness and order of the enumeration not encoded)")
+                out.append((s, IterDesc(z3.Length(items.e), (lambda items, tt: lambda i: SV(tt, items.e[i]))(items, tt))))
+            return out
         out = []
         for s, v in self.ev(node, st, sink):
             if isinstance(v.t, ty.Opt):
